@@ -95,6 +95,40 @@ def _overflow_flag(wcfg, facts):
     return flag
 
 
+def _failing_edges_cannot_reach(cfg, fi, name: str, target: int) -> bool:
+    """There is a test `fixed_safe(*name)` in the function and from none of its failing edges the target can be reached on a path consistent with the constants
+    the path assigns (`name = None` ... `if name is None: return None`)."""
+    tests = []
+    for n_ in walk_body(fi):
+        if isinstance(n_, ast.If) and f"fixed_safe(*{name})" in norm(n_.test).replace("not ", ""):
+            neg = isinstance(n_.test, ast.UnaryOp) and isinstance(n_.test.op, ast.Not)
+            tests.append((cfg.node_for(n_), "T" if neg else "F"))
+    if not tests:
+        return False
+    for tn, fail_lab in tests:
+        for t_, lab in cfg.nodes[tn].succs:
+            if lab == fail_lab and _reaches_consistently(cfg, t_, target):
+                return False
+    # and every way from the entry to the target passes one of the tests
+    if _reaches_consistently(cfg, cfg.entry, target, blocked=frozenset(tn for tn, _ in tests)):
+        return False
+    # what is returned is what was tested: every binding of `name` that reaches the target (None sentinels and `x = x` aside) also reaches one of the tests
+    def origins(node, depth=4):
+        out = set()
+        for d in cfg.reaching(node, name):
+            if isinstance(d.value, ast.Constant) and d.value.value is None:
+                continue
+            if isinstance(d.value, ast.Name) and d.value.id == name and depth > 0:
+                out |= origins(d.node, depth - 1)
+            else:
+                out.add(id(d))
+        return out
+    tested = set()
+    for tn, _ in tests:
+        tested |= origins(tn)
+    return origins(target) <= tested
+
+
 def r06b_impl(model: Model, rr: RuleResult):
     # try_reuse returns a result only under fixed_safe(*affine)
     fi = model.func("glyph_reuse", "GlyphReuseCache.try_reuse")
@@ -108,6 +142,13 @@ def r06b_impl(model: Model, rr: RuleResult):
     if isinstance(aff, ast.Name) and aff.id in guarded_names(facts, "fixed_safe") and all(
             same_defs(cfg, cfg.node_for(c), at, aff.id) for c in fact_calls(facts, "fixed_safe")):
         rr.ok("try_reuse returns ReuseResult(_, affine) only under fixed_safe(*affine)")
+    elif isinstance(aff, ast.Name) and _failing_edges_cannot_reach(cfg, fi, aff.id, at):
+        rr.ok("try_reuse: every failing edge of fixed_safe(*affine) leaves without reaching the ReuseResult (sentinel / early exit instead of a dominating test)")
+    elif isinstance(aff, ast.Name) and fact_calls(facts, "fixed_safe") and not all(same_defs(cfg, cfg.node_for(c), at, aff.id) for c in fact_calls(facts, "fixed_safe")):
+        late = [d for d in cfg.reaching(at, aff.id) if d.value is not None and not any(d in cfg.reaching(cfg.node_for(c), aff.id) for c in fact_calls(facts, "fixed_safe"))]
+        rr.bad(fi, (late[0].stmt if late and late[0].stmt is not None else rets[0]), f"`{aff.id}` is bound again after fixed_safe(*{aff.id}) was tested "
+               f"({short(late[0].value, 60) if late else '?'}): the transform that is returned is not the one that was checked against the 16.16 range",
+               construct=f"try_reuse: {aff.id} rebound after the fixed_safe test")
     else:
         rr.bad(fi, rets[0], "try_reuse can return a transform that does not fit OpenType Fixed (16.16): PaintTransform would overflow at compile time",
                construct=f"{short(rets[0])} without dominating fixed_safe")
@@ -142,6 +183,20 @@ def r06b_impl(model: Model, rr: RuleResult):
     # the flag that guards the reuse return is found by role: a name tested on the way to the return, one of whose definitions tests fixed_safe
     at_calls = [c for c in calls_in(wf) if callee_tail(c) == "apply_transform" and "child_paint" in norm(c.func)]
     applied = norm(at_calls[0].args[0]) if at_calls and at_calls[0].args else None
+    if not at_calls:
+        # the try/except around apply_transform moved into a helper the reference tree does not have: the transform it is handed is the one applied
+        from .. import report as _rep6
+        for c in calls_in(wf):
+            callee = model.resolve_call(wf, c)
+            if callee is None or isinstance(callee.node, ast.Lambda) or _rep6.CURRENT_DRIFT.get(callee.fq, 0) is not None:
+                continue
+            inner = [x for x in calls_in(callee, nested=True) if callee_tail(x) == "apply_transform" and x.args and isinstance(x.args[0], ast.Name) and x.args[0].id in callee.params]
+            if inner:
+                idx = [p_ for p_ in callee.params].index(inner[0].args[0].id)
+                if idx < len(c.args):
+                    applied = norm(c.args[idx])
+                    at_calls = [c]
+                    break
     from ..guards import _atoms
     flag = _overflow_flag(wcfg, facts)
     direct = [c for c in fact_calls(facts, "fixed_safe") if applied and norm(c.args[0]) == f"*{applied}"] if facts else []
@@ -182,7 +237,7 @@ def r06b_impl(model: Model, rr: RuleResult):
                 neg = isinstance(n_.test, ast.UnaryOp) and isinstance(n_.test.op, ast.Not)
                 fail_lab = "T" if neg else "F"
                 for t_, lab in wcfg.nodes[tn].succs:
-                    if lab == fail_lab and (t_ == rn or rn in wcfg.reachable_from(t_)):
+                    if lab == fail_lab and (t_ == rn or rn in wcfg.reachable_from(t_)) and _reaches_consistently(wcfg, t_, rn):
                         escaped = True
         if escaped:
             rr.bad(wf, rr_ret[0], "the reuse wrapper is returned although the counter-transform of the gradient may overflow", construct="reuse return not guarded by `not overflows`")
@@ -223,6 +278,60 @@ def r06b_impl(model: Model, rr: RuleResult):
     san = [st for st in walk_body(wf) if isinstance(st, ast.Assert) and "fixed_safe(*reuse_result.transform)" in norm(st.test)]
     if san:
         rr.ok("sanity assertion fixed_safe(*reuse_result.transform) present")
+
+
+def _reaches_consistently(cfg, start: int, target: int, limit: int = 4000, blocked=frozenset()) -> bool:
+    """Is `target` reachable from `start` along a path that agrees with the constants the path itself assigns?  `x = None` ... `if x is not None: <target>` is
+    not such a path.  Tests on names the path gave a constant to (truthiness, `not`, `is None`, `is not None`, `== c`) are followed on their consistent edge only;
+    every other test on both edges."""
+    def ev(test, env):
+        if isinstance(test, ast.UnaryOp) and isinstance(test.op, ast.Not):
+            r = ev(test.operand, env)
+            return None if r is None else (not r)
+        if isinstance(test, ast.Name) and test.id in env:
+            return bool(env[test.id])
+        if isinstance(test, ast.Compare) and len(test.ops) == 1 and isinstance(test.left, ast.Name) and test.left.id in env and isinstance(test.comparators[0], ast.Constant):
+            v, c = env[test.left.id], test.comparators[0].value
+            op = test.ops[0]
+            if isinstance(op, ast.Is):
+                return v is c
+            if isinstance(op, ast.IsNot):
+                return v is not c
+            if isinstance(op, ast.Eq):
+                return v == c
+            if isinstance(op, ast.NotEq):
+                return v != c
+        return None
+    seen = set()
+    todo = [(start, ())]
+    steps = 0
+    while todo and steps < limit:
+        steps += 1
+        n, envt = todo.pop()
+        if n == target:
+            return True
+        if (n, envt) in seen or n in blocked:
+            continue
+        seen.add((n, envt))
+        env = dict(envt)
+        node = cfg.nodes[n]
+        st = node.ast
+        if isinstance(st, ast.Assign) and len(st.targets) == 1 and isinstance(st.targets[0], ast.Name):
+            if isinstance(st.value, ast.Constant):
+                env[st.targets[0].id] = st.value.value
+            else:
+                env.pop(st.targets[0].id, None)
+        elif isinstance(st, (ast.AugAssign, ast.For)):
+            for m in ast.walk(getattr(st, "target", st)):
+                if isinstance(m, ast.Name):
+                    env.pop(m.id, None)
+        test = getattr(st, "test", None) if isinstance(st, (ast.If, ast.While)) else None
+        verdict = ev(test, env) if test is not None else None
+        for t_, lab in node.succs:
+            if verdict is not None and lab in ("T", "F") and (lab == "T") != verdict:
+                continue
+            todo.append((t_, tuple(sorted(env.items(), key=lambda kv: kv[0]))))
+    return False
 
 
 @RULES.rule("C06", "R06b", "reuse falls back to the un-reused emission when a transform is not representable", floor=7)
@@ -354,7 +463,9 @@ def r06d_impl(model: Model, rr: RuleResult):
     if roles["store_value"] == f"({pn}, {pp})" and roles["result_name"] == f"{ENTRY}[0]" and roles["affine_between"] and roles["affine_between"][0] == f"SVGPath(d={ENTRY}[1])":
         rr.ok("cache maps normalised path -> (donor glyph name, donor path); first field is the name, second the un-normalised path")
     else:
-        rr.bad_shape(afi, afi.node, "reuse cache entry is not (glyph name, original path) keyed by the normalised path", construct="_reusable_paths entry")
+        # the store side is read from add_glyph, the two read sides from try_reuse: the report belongs to the function whose part does not read as expected
+        at_fault = afi if roles["store_value"] != f"({pn}, {pp})" else tfi
+        rr.bad_shape(at_fault, at_fault.node, "reuse cache entry is not (glyph name, original path) keyed by the normalised path", construct="_reusable_paths entry")
 
 
 @RULES.rule("C06", "R06d", "look-up key = insertion key in both back ends; one normalisation tolerance", floor=8)
@@ -382,6 +493,17 @@ def r19b(model: Model, rr: RuleResult):
                ("paint.format != PaintGlyph.format", False), ("paint.format == PaintGlyph.format", True),
                ("glyph_cache.is_known_glyph(paint.glyph)", False)}
     extra = [f for f in facts if f not in allowed]
+    # a sentinel in the place of the flag: `fill = None` exactly where fixed_safe(*transform) fails, reuse under `fill is not None`, is `not overflows`
+    import re as _re19
+    for f_ in list(extra):
+        m_ = _re19.fullmatch(r"(\w+) is (not )?None", f_[0])
+        if not m_ or (m_.group(2) is not None) != f_[1]:
+            continue
+        ds = cfg.reaching(cfg.node_for(rets[0]), m_.group(1))
+        none_defs = [d for d in ds if isinstance(d.value, ast.Constant) and d.value.value is None]
+        if none_defs and len(none_defs) < len(ds) and all(
+                any(isinstance(e, ast.Call) and callee_tail(e) == "fixed_safe" and pol is False for e, pol in guard_facts(cfg, d.node)) for d in none_defs):
+            extra.remove(f_)
     # a condition on a value that a function the reference tree does not have computed cannot be judged here (the overflow test may have moved there)
     from ..report import CURRENT_DRIFT as _CD
     via_new = False
@@ -643,7 +765,7 @@ def r06f(model: Model, rr: RuleResult):
     fi = model.func("write_font", "_migrate_paths_to_ufo_glyphs._update_paint_glyph")
     cfg = cfg_of(fi)
     uses = [c for c in calls_in(fi) if callee_tail(c) == "apply_transform" and c.args and isinstance(c.func, ast.Attribute) and "paint" in norm(c.func.value)]
-    uses += [c for c in calls_in(fi) if callee_tail(c) == "transformed" and len(c.args) == 2 and "child_paint" in norm(c.args[1]) and "reuse_result.transform" != norm(c.args[0])]
+    uses += [c for c in calls_in(fi) if callee_tail(c) == "transformed" and len(c.args) == 2 and isinstance(c.args[1], ast.Name) and "child_paint" in c.args[1].id and "reuse_result.transform" != norm(c.args[0])]
     n = 0
     for c in uses:
         a = c.args[0]
@@ -658,7 +780,13 @@ def r06f(model: Model, rr: RuleResult):
             has_inv = "inverse()" in t
             if has_child and has_inv:
                 # order: child first
-                if isinstance(d.value, ast.Call) and callee_tail(d.value) == "compose_ltr" and d.value.args and isinstance(d.value.args[0], (ast.Tuple, ast.List)) \
+                if isinstance(d.value, ast.BinOp) and isinstance(d.value.op, ast.MatMult) and "inverse()" in norm(d.value.left) and "child_transform" in norm(d.value.right) \
+                        and "inverse()" not in norm(d.value.right):
+                    rr.ok(f"gradient counter-transform = reuse.inverse() @ child_transform (A @ B maps by B first)  [{short(c, 50)}]")
+                elif isinstance(d.value, ast.BinOp) and isinstance(d.value.op, ast.MatMult) and "child_transform" in norm(d.value.left) and "inverse()" in norm(d.value.right):
+                    rr.bad(fi, d.stmt or c, f"the gradient of a reused glyph is mapped by `{short(d.value, 90)}`: A @ B maps by B first, so the inverse reuse transform is applied before the "
+                           f"fill's own wrapper", construct="_update_paint_glyph: counter-transform order reversed")
+                elif isinstance(d.value, ast.Call) and callee_tail(d.value) == "compose_ltr" and d.value.args and isinstance(d.value.args[0], (ast.Tuple, ast.List)) \
                         and len(d.value.args[0].elts) == 2 and "child_transform" in norm(d.value.args[0].elts[0]) and "inverse()" in norm(d.value.args[0].elts[1]):
                     rr.ok(f"gradient counter-transform = compose_ltr((child_transform, reuse.inverse()))  [{short(c, 50)}]")
                 elif isinstance(d.value, ast.Call) and callee_tail(d.value) == "compose_ltr" and d.value.args and isinstance(d.value.args[0], (ast.Tuple, ast.List)) \
